@@ -345,32 +345,68 @@ func checkBreadthFirst(r *Run) {
 		} else {
 			r.Fail("C17-R2-join-cancel", construct+":counted", g.Pos(), "goroutine is not (wg.Add(1) before launch: %v, defer wg.Done() first: %v): Wait can return before it finishes or never return", added, doneFirst)
 		}
-		// worker error branch cancels and records
+		// worker error branch cancels and records: the path condition of the cancel call and of the collector call must hold
+		// whenever the worker's function returned an error while the traversal context was still alive — whatever the kind
+		// of the error (an error-identity filter on that path leaves the coordinator waiting for a segment that is never
+		// marked complete)
 		if fl, ok := g.Call.Fun.(*ast.FuncLit); ok {
-			cancels, records := false, false
+			var cancelCall, recordCall *ast.CallExpr
 			ast.Inspect(fl.Body, func(n ast.Node) bool {
-				ifs, ok := n.(*ast.IfStmt)
-				if !ok || !strings.Contains(exprString(r.Fset, ifs.Cond), "err != nil") {
+				es, ok := n.(*ast.ExprStmt)
+				if !ok {
 					return true
 				}
-				for _, st := range ifs.Body.List {
-					if es, ok := st.(*ast.ExprStmt); ok {
-						if call, ok := es.X.(*ast.CallExpr); ok {
-							if isIdent(call.Fun, cancel) {
-								cancels = true
-							}
-							if sel, ok := call.Fun.(*ast.SelectorExpr); ok && sel.Sel.Name == "Add" && !isIdent(sel.X, wg) && !isIdent(sel.X, counter) {
-								records = true
-							}
+				if call, ok := es.X.(*ast.CallExpr); ok {
+					if isIdent(call.Fun, cancel) && cancelCall == nil {
+						cancelCall = call
+					}
+					if sel, ok := call.Fun.(*ast.SelectorExpr); ok && sel.Sel.Name == "Add" && !isIdent(sel.X, wg) && !isIdent(sel.X, counter) && recordCall == nil {
+						if n := namedOf(info.TypeOf(sel.X)); n != nil && strings.Contains(n.Obj().Name(), "ErrorCollector") {
+							recordCall = call
 						}
 					}
 				}
 				return true
 			})
-			if cancels && records {
-				r.Pass("C17-R2-join-cancel", construct+":error-path", g.Pos(), "a failing worker cancels the traversal context and records its error")
+			if cancelCall == nil || recordCall == nil {
+				r.Fail("C17-R2-join-cancel", construct+":error-path", g.Pos(), "a failing worker must cancel the traversal context (%v) and record the error (%v): otherwise the coordinator waits forever or the error is lost", cancelCall != nil, recordCall != nil)
 			} else {
-				r.Fail("C17-R2-join-cancel", construct+":error-path", g.Pos(), "a failing worker must cancel the traversal context (%v) and record the error (%v): otherwise the coordinator waits forever or the error is lost", cancels, records)
+				bad := ""
+				for _, c := range []struct {
+					what string
+					call *ast.CallExpr
+				}{{"the cancellation of the traversal context", cancelCall}, {"the recording of the error", recordCall}} {
+					lits := pathConditions(fl.Body, c.call)
+					hasErr := false
+					for _, l := range lits {
+						ast.Inspect(l.Expr, func(n ast.Node) bool {
+							if e, ok := n.(ast.Expr); ok {
+								if cls, _ := classifyAtom(info, e); cls == atomErrNonNil {
+									hasErr = true
+								}
+							}
+							return true
+						})
+					}
+					holds, counter, decided := impliedUnder(r.Fset, info, lits)
+					if !decided {
+						r.Undecide("C17-R2: the path condition of %s in the worker has too many atoms", c.what)
+						return
+					}
+					if !hasErr {
+						bad = c.what + " is not on the worker's error path"
+					} else if !holds {
+						bad = c.what + " is skipped for an error returned while the traversal context is still alive (" + counter + ")"
+					}
+					if bad != "" {
+						break
+					}
+				}
+				if bad == "" {
+					r.Pass("C17-R2-join-cancel", construct+":error-path", g.Pos(), "every error a worker returns while the traversal context is alive cancels the traversal and is recorded")
+				} else {
+					r.Fail("C17-R2-join-cancel", construct+":error-path", g.Pos(), "%s: the segment being expanded is never marked complete, so the coordinator waits forever, or the error is lost", bad)
+				}
 			}
 		}
 	}
